@@ -10,6 +10,7 @@ CfgRes == {[fh |-> f, hostino |-> FALSE, no_open |-> o, no_opendir |-> d, via |-
 CfgResQ == {c \in CfgRes : c.no_open = c.no_opendir}
 CfgDir == {[fh |-> FALSE, hostino |-> FALSE, no_open |-> FALSE, no_opendir |-> d, via |-> v] : d \in BOOLEAN, v \in {"pt", "pseudo"}}
 NoDetail == FALSE
+AnyBlame(lk, susp) == "any"
 Counts12 == {1, 2}
 Counts13 == {1, 3}
 NoFail == {-1}
